@@ -271,6 +271,22 @@ def polars_spec_order_rule(program, res, rule="C17-S5"):
                     f"blocks_to_rowrecs relabels value columns by position (`{unparse(positional[0])[:50]}`) without first selecting the frame's columns in the order of the record specification")
 
 
+def key_levels_from_control_table_rule(program, res, rule="C17-S7"):
+    """rows -> blocks writes, into the key columns of each block row, the *key cells of the control table row* it was built from.  pandas' melt (and stack) fill their
+    `var_name` column with the *names of the source columns* — the control table's value cells — which are the key levels only in the plain un-pivot layout where the key
+    column repeats the value names; with key levels of their own (measure = len / wid over Sepal.Length / Sepal.Width) the key column comes out wrong and inverse() finds nothing"""
+    m = program.method("pandas_base", "PandasModelBase", "rowrecs_to_blocks", inherited=False)
+    res.analysed(m)
+    bad = [c for c in ast.walk(m.node) if isinstance(c, ast.Call) and isinstance(c.func, ast.Attribute) and c.func.attr in ("melt", "stack", "wide_to_long")]
+    keyed = [c for c in bad if c.func.attr != "melt" or any(k.arg == "var_name" and "control_table_keys" in unparse(k.value) for k in c.keywords)]
+    if keyed:
+        res.fail_at(rule, m, "key-levels-from-column-names:rowrecs_to_blocks",
+                    f"`{unparse(keyed[0])[:70]}` fills the key column with the names of the melted columns, not with the control table's key cells: for a control table whose key levels "
+                    f"differ from its value names the blocks carry the wrong keys, the round trip through inverse() returns nothing, and Pandas disagrees with Polars", keyed[0])
+    else:
+        res.ok(rule, "Pandas rows -> blocks takes the key cells of each block row from the control table (no melt / stack shortcut that names them after the source columns)", nontrivial=False)
+
+
 def _selects_named_columns(helper) -> bool:
     """helper(self, df, columns): every return is `df.loc[:, cols]` with cols built from the `columns` parameter only"""
     ps = helper.params()
@@ -310,6 +326,7 @@ def run(program, res, tier):
     res.rule("C17-S6", "Polars stacks value columns of different dtypes the way Pandas does")
     _s6_polars_stacking(program, res)
     polars_spec_order_rule(program, res)
+    key_levels_from_control_table_rule(program, res)
     res.rule("C17-S12", "zero-row record conversions keep the column types")
     from . import c03 as _c03
     _c03.empty_frame_types_rule(program, res, rule="C17-S12", methods={"blocks_to_rowrecs", "rowrecs_to_blocks"})
